@@ -89,6 +89,74 @@ func verifHarness_C20_basicAuth() {
 	}
 }
 
+// The same gate with the real Authorization header: nothing of net/http is
+// stubbed, the credentials travel base64-encoded as they do on the wire
+// (account names may contain a colon; a user name cannot).
+func verifHarness_C20_basicAuthRaw() {
+	nacc := verifChoice("accounts", verifParam("A")+1)
+	accounts := map[string]string{}
+	var users, pwds []string
+	for i := 0; i < nacc; i++ {
+		u := verifShort("acc_user", 0, 2)
+		for _, x := range users {
+			verifAssume(x != u)
+		}
+		p := verifShort("acc_pwd", 0, 1)
+		users = append(users, u)
+		pwds = append(pwds, p)
+		accounts[u] = p
+	}
+	req := verifRequest("GET", "/x")
+	hk := verifChoice("header", 3) // none, well-formed credentials, arbitrary bytes after "Basic "
+	user, pwd := "", ""
+	switch hk {
+	case 1:
+		user = verifShort("user", 0, 2)
+		for i := 0; i < len(user); i++ {
+			verifAssume(user[i] != ':')
+		}
+		pwd = verifShort("pwd", 0, 3)
+		req.SetBasicAuth(user, pwd)
+	case 2:
+		raw := verifShort("raw", 0, 4)
+		for i := 0; i < len(raw); i++ {
+			verifAssume(verifAnd(raw[i] != '\n', raw[i] != '\r'))
+		}
+		req.Header.Set("Authorization", "Basic "+raw)
+	}
+	ranMain := false
+	var sawUser any
+	r := rux.New()
+	r.GET("/x", func(c *rux.Context) { ranMain = true; sawUser, _ = c.Get("username") }, HTTPBasicAuth(accounts))
+	rec := verifNewWriter()
+	k := verifCatch(func() { r.ServeHTTP(rec, req) })
+	verifAssert(k == "", "no Authorization header makes the gate panic")
+	switch hk {
+	case 0:
+		verifAssert(!ranMain && rec.whStatus == 401, "a request without credentials is answered 401")
+	case 1:
+		match := len(users) == 0
+		for i := range users {
+			match = verifOr(match, verifAnd(users[i] == user, pwds[i] == pwd))
+		}
+		verifAssert(verifIff(ranMain, match), "the chain runs iff the decoded user is an account with that password (or no account list is given)")
+		if ranMain {
+			verifAssert(sawUser == any(user), "the accepted user name is exposed to the chain")
+		} else {
+			verifAssert(rec.whStatus == 403, "wrong credentials are answered 403")
+		}
+	case 2:
+		if ranMain && len(users) > 0 {
+			known := false
+			for i := range users {
+				known = verifOr(known, sawUser == any(users[i]))
+			}
+			verifAssert(known, "whatever the header spells, only a configured account gets through")
+		}
+	}
+	verifCover("C20 raw header")
+}
+
 func verifUpper(s string) string {
 	out := ""
 	for i := 0; i < len(s); i++ {
